@@ -42,7 +42,14 @@ func vxLSystemView(r *routing.Router, ctx context.Context, path string) logical.
 func vxLFetchEntity(c *Core, ctx context.Context, ns *namespace.Namespace, entityID string, skip bool) (*identity.Entity, map[string][]string, error) {
 	return nil, map[string][]string{ns.ID: vxIdentityPolicies}, nil
 }
+var (
+	vxLeaseTTL   time.Duration
+	vxLeaseCalls int
+)
+
 func vxLRegisterAuth(m *ExpirationManager, ctx context.Context, te *logical.TokenEntry, auth *logical.Auth, role string, persist bool) error {
+	vxLeaseCalls++
+	vxLeaseTTL = auth.TTL // the lifetime the lease is registered with
 	if vxLeaseFails {
 		return vxErr("lease registration failed")
 	}
@@ -51,7 +58,7 @@ func vxLRegisterAuth(m *ExpirationManager, ctx context.Context, te *logical.Toke
 func vxLRevokeOrphan(ts *TokenStore, ctx context.Context, id string) error { vxOrphaned++; return nil }
 
 func VxLogin() {
-	vxCreated, vxCreates, vxOrphaned = nil, 0, 0
+	vxCreated, vxCreates, vxOrphaned, vxLeaseCalls = nil, 0, 0, 0
 	vxSys = vxExtSys{def: vxDur("mount default ttl"), max: vxDur("mount max ttl")}
 	vxAssume(vxSys.def > 0 && vxSys.max >= vxSys.def)
 	ts := vxTokenStore()
@@ -94,14 +101,17 @@ func VxLogin() {
 	if auth.MaxTTL > 0 {
 		vxAssert("login token lifetime within the method's maximum", te.TTL <= auth.MaxTTL)
 	}
+	if auth.TokenType == logical.TokenTypeService {
+		vxAssert("the token's lease is registered with the token's (capped) lifetime", vxLeaseCalls == 1 && vxLeaseTTL == te.TTL)
+	}
 	if err != nil || (out != nil && out.IsError()) {
 		vxReach("login: lease registration failed")
 		vxAssert("a login that fails after creating the token revokes it", vxLeaseFails && vxOrphaned == 1)
 		return
 	}
 	vxReach("login: accepted")
+	vxAssert("the lifetime reported to the client is the token's (capped) lifetime", out.Auth.TTL == te.TTL)
 	for _, p := range out.Auth.Policies {
 		vxAssert("the reported policy set has no root / non-assignable policy", p != "root" && p != policy.ResponseWrappingPolicyName)
 	}
-	_ = time.Second
 }
